@@ -5,6 +5,8 @@
            pow    every 2 x 2 matrix over a small entry set x exponent pool x negative powers enabled / disabled
            chain  product chains of 2..4 operands (scalars, vectors, square matrices), '*' and '/', one optional group
            lit    array literals as bracket trees (rectangular / ragged), behind the property: how operands are built
+           scaled rank-deficient and regular base matrices multiplied by large / small / complex scalars, negative powers
+           src    a scalar operand obtained from a function call, a negated call, a product ... on either side of an array
            scope  call histories: graders with negative powers disabled / enabled interleaved with direct operations
    Operands are carried in compact form  [sh |-> shape, e |-> << <<a, b, d>>, ... >>]  meaning (a + b i) / d. *)
 EXTENDS ArrayAlgebra
@@ -70,13 +72,19 @@ Groups(L) == {<<0, 0>>} \cup {<<p, q>> \in (1..L) \X (1..L) : p < q /\ q - p < L
 \* ---- part scope: histories of calls
 (* call kinds:  gd_neg  MatrixGrader(negative_powers=False) given A^-1      gd_pos  the same grader given A^2
                gd_shape the same grader given an input with a shape error   ge_neg  default MatrixGrader given A^-1
+               gdd_neg / gdd_pos / ged_neg  the same with a dependent (computed) variable in the grader's sample_from
                op_neg  direct A ** -1                                        op_pos  direct A ** 2
-   The switch is process-wide state: "flag" is its value between calls.  A call of a grader sets it on entry and
-   must restore the default on every exit (normal or exceptional).  *)
-CallKinds == {"gd_neg", "gd_pos", "gd_shape", "ge_neg", "op_neg", "op_pos"}
+   The switch is process-wide state: "flag" is its value.  A grader call sets it on entry to the configured value,
+   keeps it there for the whole evaluation of the student's input -- whatever else happens inside the call, e.g. the
+   computation of dependent variables, which may run a nested block that sets the switch for its own purposes and
+   has to leave it as it found it -- and restores the default on every exit (normal or exceptional).  *)
+CallKinds == {"gd_neg", "gd_pos", "gd_shape", "ge_neg", "gdd_neg", "gdd_pos", "ged_neg", "op_neg", "op_pos"}
 MaxHist == IF Big THEN 4 ELSE 3
+IsGraderCall(call) == call \notin {"op_neg", "op_pos"}
+HasDependent(call) == call \in {"gdd_neg", "gdd_pos", "ged_neg"}
+Configured(call) == call \in {"ge_neg", "ged_neg"}              \* negative_powers of the grader behind the call
 AllowedFor(call, flagInside) ==
-  IF call \in {"gd_pos", "op_pos"} THEN "value"
+  IF call \in {"gd_pos", "gdd_pos", "op_pos"} THEN "value"
   ELSE IF call = "gd_shape" THEN "error"
   ELSE IF flagInside THEN "value" ELSE "error"
 
@@ -87,6 +95,58 @@ Lit1 == ArrOver({Num}, 3)
 Lit2 == ArrOver({Num} \cup Lit1, IF Big THEN 3 ELSE 2)
 Lit3 == ArrOver({Num} \cup {t \in Lit1 : Len(t.xs) <= 2} \cup {t \in Lit2 : Len(t.xs) <= 2}, 2)
 
+\* ---- part scaled: base matrices x scalar factors x exponents (a determinant threshold cannot decide singularity)
+RealArr(sh, ents) == [sh |-> sh, e |-> [i \in 1..Len(ents) |-> <<ents[i], 0, 1>>]]
+ScaleC(s, a) == [sh |-> a.sh, e |-> [i \in 1..Len(a.e) |->
+                   <<a.e[i][1] * s[1] - a.e[i][2] * s[2], a.e[i][1] * s[2] + a.e[i][2] * s[1], a.e[i][3] * s[3]>>]]
+AP3 == RealArr(<<3, 3>>, <<1, 2, 3, 4, 5, 6, 7, 8, 9>>)                                  \* rank 2
+AP4 == RealArr(<<4, 4>>, <<1, 2, 3, 4, 5, 6, 7, 8, 9, 10, 11, 12, 13, 14, 15, 16>>)      \* rank 2
+S3 == RealArr(<<3, 3>>, <<2, 1, 3, 1, 0, 1, 3, 1, 4>>)                                   \* row 3 = row 1 + row 2
+L4 == RealArr(<<4, 4>>, <<1, 2, 0, 1, 0, 1, 3, 1, 1, 3, 3, 2, 1, 1, -3, 0>>)             \* rows 3, 4 = row 1 +- row 2
+Z2 == RealArr(<<2, 2>>, <<1, 2, 3, 6>>)
+C2 == [sh |-> <<2, 2>>, e |-> << <<-3, 1, 1>>, <<0, 2, 1>>, <<-6, 2, 1>>, <<0, 4, 1>> >>]  \* row 2 = 2 * row 1
+C3 == [sh |-> <<3, 3>>, e |-> << <<1, 1, 1>>, <<2, 0, 1>>, <<0, 1, 1>>, <<0, 1, 1>>, <<1, -1, 1>>, <<3, 0, 1>>,
+                                 <<1, 2, 1>>, <<3, -1, 1>>, <<3, 1, 1>> >>]                \* row 3 = row 1 + row 2
+N2 == RealArr(<<2, 2>>, <<1, 2, 3, 4>>)                                                  \* det -2
+N3 == RealArr(<<3, 3>>, <<1, 2, 3, 4, 5, 6, 7, 8, 10>>)                                  \* det -3, next to AP3
+M3 == RealArr(<<3, 3>>, <<2, 1, 0, 1, 1, 3, 1, 0, -1>>)                                  \* det 2
+NC2 == [sh |-> <<2, 2>>, e |-> << <<1, 0, 1>>, <<0, 1, 1>>, <<0, 1, 1>>, <<1, 0, 1>> >>]  \* det 2
+N4 == RealArr(<<4, 4>>, <<0, 1, 1, 0, 2, 1, 1, 1, 0, 2, 0, 1, 1, 0, 0, 3>>)              \* det 10
+\* factor sets are limited per base only by TLC's 32-bit integers (determinants grow like factor^n)
+ScaledFamilies == {
+  [b |-> AP3, ss |-> {<<1, 0, 1>>, <<7, 0, 1>>, <<10, 0, 1>>, <<13, 0, 1>>, <<100, 0, 1>>, <<10, 10, 1>>, <<3, -4, 1>>,
+                      <<1, 0, 10>>, <<1, 0, 100>>}, ks |-> {-3, -2, -1, 2}],
+  [b |-> AP4, ss |-> {<<1, 0, 1>>, <<7, 0, 1>>, <<10, 0, 1>>, <<13, 0, 1>>, <<10, 10, 1>>, <<1, 0, 10>>}, ks |-> {-2, -1}],
+  [b |-> S3, ss |-> {<<1, 0, 1>>, <<7, 0, 1>>, <<10, 0, 1>>, <<100, 0, 1>>, <<10, 10, 1>>, <<1, 0, 100>>}, ks |-> {-2, -1}],
+  [b |-> L4, ss |-> {<<1, 0, 1>>, <<10, 0, 1>>, <<13, 0, 1>>, <<0, 7, 1>>}, ks |-> {-3, -1}],
+  [b |-> Z2, ss |-> {<<1, 0, 1>>, <<10, 0, 1>>, <<1000, 0, 1>>, <<10, 10, 1>>, <<1, 0, 1000>>}, ks |-> {-2, -1}],
+  [b |-> C2, ss |-> {<<1, 0, 1>>, <<10, 0, 1>>, <<100, 0, 1>>, <<1, 1, 1>>, <<1, 0, 10>>}, ks |-> {-2, -1}],
+  [b |-> C3, ss |-> {<<1, 0, 1>>, <<10, 0, 1>>, <<7, 7, 1>>, <<30, 0, 1>>}, ks |-> {-2, -1}],
+  [b |-> N2, ss |-> {<<1, 0, 1>>, <<10, 0, 1>>, <<1000, 0, 1>>, <<1, 0, 1000>>, <<10, 10, 1>>, <<1, 0, 10>>}, ks |-> {-1}],
+  [b |-> N2, ss |-> {<<10, 0, 1>>, <<1, 0, 10>>, <<1, 1, 1>>}, ks |-> {-3, -2}],
+  [b |-> N3, ss |-> {<<1, 0, 1>>, <<10, 0, 1>>, <<100, 0, 1>>, <<1, 0, 10>>, <<1, 0, 100>>, <<1, 0, 1000>>, <<10, 10, 1>>},
+   ks |-> {-1}],
+  [b |-> N3, ss |-> {<<1, 0, 1>>, <<10, 0, 1>>, <<1, 0, 10>>}, ks |-> {-2}],
+  [b |-> M3, ss |-> {<<1, 0, 1>>, <<7, 0, 1>>, <<10, 0, 1>>, <<1, 0, 10>>}, ks |-> {-2, -1}],
+  [b |-> NC2, ss |-> {<<1, 0, 1>>, <<10, 0, 1>>, <<1, 0, 10>>, <<1, 1, 1>>}, ks |-> {-2, -1}],
+  [b |-> NC2, ss |-> {<<1, 0, 1000>>, <<100, 0, 1>>}, ks |-> {-1}],
+  [b |-> N4, ss |-> {<<1, 0, 1>>, <<7, 0, 1>>, <<10, 0, 1>>, <<1, 0, 10>>}, ks |-> {-1}] }
+
+\* ---- part src: where a scalar operand comes from (the outcome must not depend on it)
+(* paren (s)   det det([[s,0],[0,1]])   trace trace([[s,0],[0,0]])   negdet -det([[-s,0],[0,1]])   conj conj(conjugate of s)
+   re re(s+i)   abs abs(-s)   negabs -abs(s)   sqrt sqrt(s^2)   norm norm([s,0])   dot [s,0]*[1,0]                *)
+Sources == {"paren", "det", "trace", "negdet", "conj", "re", "abs", "negabs", "sqrt", "norm", "dot"}
+\* (numpy's det([[3,0],[0,1]]) is 3.0000000000000004: a determinant is not used where an exponent must be an exact integer)
+SrcApplies(src, q, op, side) ==
+                      IF src \in {"det", "negdet"} /\ op = "^" /\ side = "right" THEN FALSE
+                      ELSE IF src \in {"paren", "det", "trace", "negdet", "conj", "dot"} THEN TRUE
+                      ELSE IF q[2] # 0 THEN FALSE
+                      ELSE IF src = "re" THEN TRUE
+                      ELSE IF src = "negabs" THEN q[1] < 0
+                      ELSE q[1] >= 0
+SrcArrays == {Arr(sh, 1) : sh \in ArrayShapes}
+             \cup {Arr(sh, NReal + 1) : sh \in (IF Big THEN ArrayShapes ELSE {<<2>>, <<2, 2>>})}
+
 VARIABLES c, out
 
 Seeds ==
@@ -94,7 +154,9 @@ Seeds ==
   ELSE IF Part = "pow" THEN {[kind |-> "seed", r1 |-> r, neg |-> ng] : r \in PowRow, ng \in BOOLEAN}
   ELSE IF Part = "chain" THEN {[kind |-> "seed", n |-> n, ops |-> ops] : n \in ChainDims, ops \in UNION {OpPatterns(L) : L \in 2..4}}
   ELSE IF Part = "lit" THEN {[kind |-> "seed", lvl |-> i] : i \in 1..3}
-  ELSE {[kind |-> "scope", flag |-> TRUE, inside |-> "none", hist |-> <<>>]}
+  ELSE IF Part = "scaled" THEN {[kind |-> "seed", fam |-> f] : f \in ScaledFamilies}
+  ELSE IF Part = "src" THEN {[kind |-> "seed", op |-> op, side |-> sd, src |-> sr] : op \in Ops, sd \in {"left", "right"}, sr \in Sources}
+  ELSE {[kind |-> "scope", flag |-> TRUE, inside |-> "none", phase |-> "idle", saved |-> TRUE, hist |-> <<>>]}
 
 Init == c \in Seeds /\ out = (IF Part = "scope" THEN <<>> ELSE [k |-> "seed"])
 
@@ -105,25 +167,44 @@ NextPow == /\ c' \in [kind : {"pow"}, neg : {c.neg}, r1 : {c.r1}, r2 : {r \in Po
 NextChain == /\ c' \in [kind : {"chain"}, n : {c.n}, ops : {c.ops}, xs : [1..(Len(c.ops) + 1) -> ChainOperands(c.n)],
                         grp : Groups(Len(c.ops) + 1)]
              /\ out' = GroupedChain(Tup([i \in 1..Len(c'.xs) |-> Ex(c'.xs[i])], Len(c'.xs)), c'.ops, c'.grp, TRUE)
-\* scope machine: a direct operation is one step; a grader call is  enter (set the switch) ; body+exit (restore)
-IsGraderCall(call) == call \in {"gd_neg", "gd_pos", "gd_shape", "ge_neg"}
+NextScaled == /\ \E sc \in c.fam.ss, k \in c.fam.ks :
+                   c' = [kind |-> "scaled", op |-> "^", neg |-> TRUE, base |-> c.fam.b, s |-> sc,
+                         x |-> ScaleC(sc, c.fam.b), y |-> Sc(k, 0, 1)]
+              /\ out' = Op("^", Ex(c'.x), Ex(c'.y), TRUE)
+NextSrc == /\ c' \in {r \in [kind : {"src"}, op : {c.op}, side : {c.side}, src : {c.src}, neg : {TRUE},
+                               s : ScalarPool, a : SrcArrays] : SrcApplies(r.src, r.s.e[1], r.op, r.side)}
+           /\ out' = IF c'.side = "left" THEN Op(c'.op, Ex(c'.s), Ex(c'.a), TRUE) ELSE Op(c'.op, Ex(c'.a), Ex(c'.s), TRUE)
+(* scope machine.  A direct operation is one step.  A grader call is  enter (switch := configured value) ;
+   [sampling of dependent variables: optionally a nested block  save ; switch := TRUE ; ... ; switch := saved] ;
+   evaluation of the student's input ; exit (switch := default) -- the exit is taken on every path. *)
 NextScope ==
   \/ /\ c.inside = "none" /\ Len(c.hist) < MaxHist
      /\ \E call \in CallKinds :
           IF IsGraderCall(call)
-          THEN /\ c' = [c EXCEPT !.inside = call, !.flag = (call = "ge_neg")]       \* enter: switch := configured value
+          THEN /\ c' = [c EXCEPT !.inside = call, !.flag = Configured(call),
+                                 !.phase = IF HasDependent(call) THEN "sampling" ELSE "student"]
                /\ out' = out
           ELSE /\ c' = [c EXCEPT !.hist = Append(c.hist, call)]
                /\ out' = Append(out, AllowedFor(call, c.flag))
-  \/ /\ c.inside # "none"                                                         \* body, then exit on every path
-     /\ c' = [c EXCEPT !.inside = "none", !.flag = TRUE, !.hist = Append(c.hist, c.inside)]
+  \/ /\ c.phase = "sampling"                       \* dependent variables computed without touching the switch ...
+     /\ c' = [c EXCEPT !.phase = "student"]
+     /\ out' = out
+  \/ /\ c.phase = "sampling"                       \* ... or inside a nested block that borrows the switch
+     /\ c' = [c EXCEPT !.phase = "nested", !.saved = c.flag, !.flag = TRUE]
+     /\ out' = out
+  \/ /\ c.phase = "nested"                         \* the nested block ends: the switch is left as it was found
+     /\ c' = [c EXCEPT !.phase = "student", !.flag = c.saved, !.saved = TRUE]
+     /\ out' = out
+  \/ /\ c.phase = "student"                        \* the student's input is evaluated, then exit on every path
+     /\ c' = [c EXCEPT !.inside = "none", !.phase = "idle", !.flag = TRUE, !.hist = Append(c.hist, c.inside)]
      /\ out' = Append(out, AllowedFor(c.inside, c.flag))
 NextLit == /\ c' \in [kind : {"lit"}, t : IF c.lvl = 1 THEN Lit1 ELSE IF c.lvl = 2 THEN Lit2 ELSE Lit3]
            /\ out' = LitShape(c'.t)
 Next == IF Part = "scope" THEN NextScope
         ELSE /\ c.kind = "seed"
              /\ IF Part = "bin" THEN NextBin ELSE IF Part = "pow" THEN NextPow
-                ELSE IF Part = "chain" THEN NextChain ELSE NextLit
+                ELSE IF Part = "chain" THEN NextChain ELSE IF Part = "scaled" THEN NextScaled
+                ELSE IF Part = "src" THEN NextSrc ELSE NextLit
 
 IsBin == c.kind = "bin"
 X == Ex(c.x)
@@ -132,6 +213,13 @@ PowX == Ex([sh |-> <<2, 2>>, e |-> c.r1 \o c.r2])
 
 \* ---- laws, one INVARIANT each
 InvOutcomeDomain == (c.kind \in {"bin", "pow", "chain"}) => out.k \in {"val", "err", "nopred"}
+InvScaled == (c.kind = "scaled") => (out.k \in {"val", "err"} /\ LawScaleInvariance(Ex(c.base), GQ(c.s), Ex(c.y), TRUE))
+\* the source of a scalar is not an argument of Op: the same scalar from any source gives the literal's outcome
+InvSrc == (c.kind = "src") => /\ out.k \in {"val", "err"}
+                              /\ LawShape(c.op, IF c.side = "left" THEN Ex(c.s) ELSE Ex(c.a),
+                                           IF c.side = "left" THEN Ex(c.a) ELSE Ex(c.s), TRUE)
+                              /\ (c.side = "left" /\ c.op \in {"/", "^"}) => out.k = "err"
+                              /\ (c.op \in {"+", "-"} /\ ~GIsZero(GQ(c.s.e[1]))) => out.k = "err"
 InvNoPredOnlyScalarPow == (c.kind \in {"bin", "pow", "chain"} /\ out.k = "nopred") =>
                              (c.kind = "bin" /\ c.op = "^" /\ c.x.sh = <<>> /\ c.y.sh = <<>>)
 InvShape == IsBin => LawShape(c.op, X, Y, c.neg)
@@ -146,8 +234,11 @@ InvChain == (c.kind = "chain") => LawChain(Tup([i \in 1..Len(c.xs) |-> Ex(c.xs[i
 InvGroupFlat == (c.kind = "chain" /\ c.grp = <<0, 0>>) =>
                    SameOutcome(out, ChainProduct(Tup([i \in 1..Len(c.xs) |-> Val(Ex(c.xs[i]))], Len(c.xs)), c.ops, TRUE))
 InvLiteral == (c.kind = "lit") => (LawLiteral(c.t) /\ out.k \in {"sh", "ragged"})
-\* scope: between calls the switch is always at its default, whatever happened inside the calls
+\* scope: between calls the switch is always at its default, whatever happened inside the calls; while the student's
+\* input is evaluated it is at the grader's configured value, whatever the sampling phase did; every recorded outcome
+\* is the one the call's own configuration demands (no influence of earlier calls or of dependent variables)
 InvScopeDefault == (c.kind = "scope" /\ c.inside = "none") => (c.flag = TRUE /\ Len(out) = Len(c.hist))
+InvScopeConfigured == (c.kind = "scope" /\ c.phase = "student") => c.flag = Configured(c.inside)
 InvScopeLocal == (c.kind = "scope") =>
-                    \A i \in 1..Len(c.hist) : out[i] = AllowedFor(c.hist[i], c.hist[i] \notin {"gd_neg", "gd_pos", "gd_shape"})
+                    \A i \in 1..Len(c.hist) : out[i] = AllowedFor(c.hist[i], IF IsGraderCall(c.hist[i]) THEN Configured(c.hist[i]) ELSE TRUE)
 =============================================================================
